@@ -559,10 +559,12 @@ def callers_of(facts, key):
     return sorted(out)
 
 
-def who_may_call(ctx, rule, facts, key, allowed, why):
-    """layering rule: `key` is called only from the listed functions"""
+def who_may_call(ctx, rule, facts, key, allowed, why, accept=None):
+    """layering rule: `key` is called only from the listed functions - or from a caller for which `accept(caller key)` holds:
+    a call site added later that can be *shown* to keep the discipline the listed ones keep (the predicate states that
+    discipline) needs no entry in the list; one that cannot be shown to is reported as before"""
     cs = callers_of(facts, key)
-    extra = [c for c in cs if c not in allowed]
+    extra = [c for c in cs if c not in allowed and not (accept is not None and accept(c))]
     return ctx.ob(rule, key, "who-may-call", not extra and bool(cs),
                   "%s is also called from %s (%s)" % (key, extra, why) if cs else "%s has no callers" % key,
                   sample="callers: %s" % [c.rsplit("::", 1)[-1] for c in cs])
